@@ -61,6 +61,10 @@ def generate(rng, tier):
         ref = rng.choice([None, None, F(0), F(rng.randint(1, 2000)), F(rng.uniform(0.1, 3000))])
         cases.append({"kind": "u", "s": s, "ref": ref, "family": fam + ("/ref0" if ref == 0 else "")})
         cases.append({"kind": "g", "attr": s, "dflt": F(rng.choice([100, 816, 1056.0, rng.uniform(1, 2000)])), "family": fam + "/getLength"})
+        if rng.random() < 0.3:
+            # the document attribute was read before and has been edited in place since (same extension object, same document object)
+            prev = [rng.choice(["2in", "50mm", "100", "25%", "12em", None, "3in", "7pt", s]) for _ in range(rng.randint(1, 3))]
+            cases[-1]["prev"] = prev; cases[-1]["family"] += "/attribute-edited-in-place"
         if not bad:
             cases.append({"kind": "r", "s": s, "u": u, "family": fam + "/roundtrip"})
         d = F(rng.choice([0.0, 96.0, 1.0, rng.uniform(-1e4, 1e4), float(rng.randint(-10**6, 10**6))]))
@@ -85,6 +89,12 @@ def run_impl(c):
         return {"v": _f(plot_utils.userUnitToUnits(float(c["d"]), c["u"]))}
     if k == "g":
         a = _Alt(c["attr"])
+        if c.get("prev"):
+            a.document.r.v = c["prev"][0]
+            for nxt in c["prev"][1:] + [c["attr"]]:
+                try: plot_utils.getLength(a, "width", float(c["dflt"])); plot_utils.getLengthInches(a, "width")
+                except Exception: pass
+                a.document.r.v = nxt
         return {"len": _f(plot_utils.getLength(a, "width", float(c["dflt"]))), "inch": _f(plot_utils.getLengthInches(a, "width"))}
     v, u = plot_utils.parseLengthWithUnits(c["s"])
     uu = plot_utils.unitsToUserUnits(c["s"], None)
